@@ -346,6 +346,39 @@ LETS = [
 ]
 
 
+# Boolean conditions extracted from larger functions: (file, impl, fn, regex with one group = the
+# condition text, lean name, params [(name,width)], textual substitutions applied before parsing)
+CONDS = [
+    ("src/db.rs", "DbInner", "commit_raw", r"(queue\.bytes\s*[<>=!]+\s*MAX_COMMIT_QUEUE_BYTES)", "commit_throttle",
+     [("q", 64)], [("queue.bytes", "q")]),
+    ("src/db.rs", "DbInner", "process_commits",
+     r"if\s+(queue\.bytes\s*[<>=!]+\s*MAX_COMMIT_QUEUE_BYTES\s*&&\s*\(queue\.bytes\s*\+\s*commit\.bytes\)\s*[<>=!]+\s*MAX_COMMIT_QUEUE_BYTES)",
+     "commit_wake", [("q", 64), ("c", 64)], [("queue.bytes", "q"), ("commit.bytes", "c")]),
+    ("src/db.rs", "DbInner", "process_commits", r"(\*queue\s*[<>=!]+\s*MAX_LOG_QUEUE_BYTES)", "log_throttle",
+     [("q", 64)], [("*queue", "q")]),
+    ("src/db.rs", "DbInner", "enact_logs",
+     r"if\s+(\*queue\s*[<>=!]+\s*MAX_LOG_QUEUE_BYTES\s*&&\s*\(\*queue\s*\+\s*bytes\s+as\s+i64\)\s*[<>=!]+\s*MAX_LOG_QUEUE_BYTES)",
+     "log_wake", [("q", 64), ("b", 64)], [("*queue", "q"), ("bytes as i64", "b")]),
+]
+
+CMP = {"<=": "≤", ">=": "≥", "<": "<", ">": ">", "==": "=", "!=": "≠"}
+
+
+def translate_cond(text, env, consts, calls):
+    """conjunction of comparisons between integer expressions -> Lean Bool"""
+    parts = [p.strip() for p in text.split("&&")]
+    out = []
+    for part in parts:
+        m = re.match(r"^(.*?)(<=|>=|==|!=|<|>)(.*)$", part, re.S)
+        if not m:
+            raise TranslateError("unsupported condition %r" % part)
+        lhs, op, rhs = m.group(1).strip(), m.group(2), m.group(3).strip()
+        l, _ = Parser(tokenize(lhs), env, consts, calls).parse()
+        r, _ = Parser(tokenize(rhs), env, consts, calls).parse()
+        out.append("decide (%s %s %s)" % (l, CMP[op], r))
+    return " && ".join(out)
+
+
 def eval_const_expr(expr, consts):
     """Constant expressions are evaluated by translating to Python."""
     e = expr
@@ -481,6 +514,25 @@ def main():
                 f, impl, fn, ln, " ".join(expr.split()), lname, sig, text))
             env[ln] = ("(%s %s)" % (lname, argnames), w if w else 64)
             report["funcs"][lname] = " ".join(expr.split())
+
+    for f, impl, fn, rx, lname, params, subs in CONDS:
+        if f not in srcs:
+            srcs[f] = strip_comments(read(f))
+        psrc, ret, body = find_fn_body(srcs[f], impl, fn)
+        ms = re.findall(rx, body, re.S)
+        if len(ms) != 1:
+            raise TranslateError("condition %s: expected exactly one match in %s::%s, found %d" % (lname, impl, fn, len(ms)))
+        text = " ".join(ms[0].split())
+        orig = text
+        for a, b in subs:
+            text = text.replace(a, b)
+        env = {n: (n, w) for n, w in params}
+        fconsts = dict(consts)
+        fconsts.update(per_file.get(f, {}))
+        lean = translate_cond(text, env, fconsts, calls)
+        sig = " ".join("(%s : Nat)" % n for n, _ in params)
+        out_bits.append("/-- %s: in `%s::%s`: condition `%s` -/\ndef %s %s : Bool := %s" % (f, impl, fn, orig, lname, sig, lean))
+        report["funcs"][lname] = orig
 
     os.makedirs(OUT, exist_ok=True)
     hdr = "-- GENERATED by tools/rs2lean.py from /repo/src on every check run. Do not edit.\n"
